@@ -45,6 +45,9 @@ pub enum Op {
     Send(Target, Vec<usize>),
     /// peer j's connection is reset (read error); observed by a following recv
     Reset(usize),
+    /// peer j closes in an orderly way (end-of-stream); like on TCP, writes towards it still
+    /// succeed for a while, so only the socket's own bookkeeping can make a later send fail
+    Close(usize),
 }
 
 #[derive(Debug, Clone, Serialize, Deserialize, PartialEq, Eq, Hash)]
@@ -69,8 +72,11 @@ pub fn router_outcome(c: &RouterCase) -> Outcome {
     if c.peers.iter().any(|p| p.lib) {
         o.class("library-peer-with-identity-option");
     }
-    if c.ops.iter().any(|op| matches!(op, Op::Reset(_))) {
+    if c.ops.iter().any(|op| matches!(op, Op::Reset(_) | Op::Close(_))) {
         o.class("departed-target");
+    }
+    if c.ops.iter().filter(|op| matches!(op, Op::Reset(_) | Op::Close(_))).count() >= 2 {
+        o.class("several-departures");
     }
     if c.ops.iter().any(|op| matches!(op, Op::Send(Target::Unknown | Target::Oversized | Target::Empty, _))) {
         o.class("absent-target");
@@ -204,6 +210,16 @@ pub fn router_outcome(c: &RouterCase) -> Outcome {
                             if !gone[j] {
                                 l.to_lib.deliver_all();
                                 l.to_lib.end_after_all(ReadEnd::Err(std::io::ErrorKind::ConnectionReset));
+                                gone[j] = true;
+                            }
+                        }
+                    }
+                    Op::Close(j) => {
+                        let j = *j % peers.len();
+                        if let PeerRt::Raw(l) = &peers[j] {
+                            if !gone[j] {
+                                l.to_lib.deliver_all();
+                                l.to_lib.end_after_all(ReadEnd::Eof);
                                 gone[j] = true;
                             }
                         }
@@ -384,7 +400,7 @@ pub fn gen_router(s: &mut Src<'_>) -> RouterCase {
     let k = s.range(4, 30);
     let mut ops = vec![];
     for _ in 0..k {
-        let op = match s.weighted(&[5, 4, 3, 2, 5, 1]) {
+        let op = match s.weighted(&[5, 4, 3, 2, 5, 1, 1]) {
             0 => Op::PeerSend(s.below(n), gen_lens(s)),
             1 => Op::Deliver(s.below(n), s.pick(&[0usize, 0, 1, 3, 10, 100])),
             2 => Op::RecvAll,
@@ -398,7 +414,8 @@ pub fn gen_router(s: &mut Src<'_>) -> RouterCase {
                 };
                 Op::Send(t, gen_lens(s))
             }
-            _ => Op::Reset(s.below(n)),
+            5 => Op::Reset(s.below(n)),
+            _ => Op::Close(s.below(n)),
         };
         ops.push(op);
     }
@@ -442,6 +459,10 @@ pub fn run(ctx: &Ctx) -> (Report, PropertyMeta) {
                     Op::RecvAll,
                     Op::Send(Target::Peer(2), vec![1]),
                     Op::Send(Target::Peer(1), vec![1]),
+                    Op::Close(0),
+                    Op::RecvAll,
+                    Op::Send(Target::Peer(0), vec![1]),
+                    Op::Send(Target::Peer(1), vec![2]),
                 ];
                 cases.push(RouterCase { peers, ops });
             }
@@ -455,17 +476,21 @@ pub fn run(ctx: &Ctx) -> (Report, PropertyMeta) {
     report.sections.push(json!({"part": "random histories: 1..5 peers (raw DEALER/REQ/ROUTER or library DEALER/REQ with the identity option), interleaved sends / partial deliveries / recvs / routed sends / resets", "cases": n}));
     report.merge(r);
 
+    if t == Tier::Thorough {
+        crate::fuzzing::campaign(ctx, &mut report, "sim", 180);
+    }
     let total = report.evaluations;
     health(&mut report, "announced-identity", total, 300);
     health(&mut report, "absent-target", total, 100);
     health_abs(&mut report, "departed-target", 300);
+    health_abs(&mut report, "several-departures", 100);
     health_abs(&mut report, "library-peer-with-identity-option", 300);
 
     let meta = PropertyMeta {
         level: "exploration",
-        rule: "proptest histories on a real ROUTER socket with 1..5 peers (raw DEALER/REQ/ROUTER with announced 1..255-byte or auto-assigned identities, or library DEALER/REQ sockets using SocketOptions::peer_identity over a pipe pair): peers write tagged messages, bytes are delivered in generated portions, the application interleaves recv with send([target, ...]) to every live identity, a never-seen identity, a 256-byte frame, an empty frame and the identity of a reset peer. Oracle: every recv result's first frame equals the identity of the connection the tagged payload was written on (= attach's return value = announced bytes, pairwise distinct), remaining frames equal what was sent, in per-connection order; after send returns Ok exactly the target's wire grew by the reference encoding of frames[1..]; on Err no wire grew; absent / oversized / empty / departed targets fail. Non-trivial = >= 2 peers and a send to a non-first peer or an absent identity; distinct by case".into(),
+        rule: "proptest histories on a real ROUTER socket with 1..5 peers (raw DEALER/REQ/ROUTER with announced 1..255-byte or auto-assigned identities, or library DEALER/REQ sockets using SocketOptions::peer_identity over a pipe pair): peers write tagged messages, bytes are delivered in generated portions, the application interleaves recv with send([target, ...]) to every live identity, a never-seen identity, a 256-byte frame, an empty frame and the identity of a peer that was reset or closed in an orderly way (like on TCP, writes towards a closed peer still succeed, so only the socket's bookkeeping can refuse), including several departures in one history. Oracle: every recv result's first frame equals the identity of the connection the tagged payload was written on (= attach's return value = announced bytes, pairwise distinct), remaining frames equal what was sent, in per-connection order; after send returns Ok exactly the target's wire grew by the reference encoding of frames[1..]; on Err no wire grew; absent / oversized / empty / departed targets fail. Non-trivial = >= 2 peers and a send to a non-first peer or an absent identity; distinct by case".into(),
         assumptions: vec![
-            "a peer that closed in an orderly way but whose end the socket has not observed is not asserted on here (C16)".into(),
+            "a departed peer is asserted on only after the socket has observed its end (a recv consumed the EOF / error)".into(),
             "one-frame sends are outside the statement".into(),
         ],
         exhaustive: false,
